@@ -14,7 +14,9 @@ use crate::simkit::rt::{self, Sched};
 use crate::simkit::runner::{Property, RunCtx, RunReport, Tier};
 use crate::simkit::tape::{fnv, Src};
 use bytes::Bytes;
-use redis_sim::production::{PerformanceConfig, ShardConfig, ShardedActorState};
+use crate::model::wire::{decode_all, encode_cmd};
+use crate::simkit::stream::StreamHandle;
+use redis_sim::production::{verif_hooks, ConnectionConfig, PerformanceConfig, ShardConfig, ShardedActorState};
 use serde_json::json;
 use std::cell::{Cell, RefCell};
 use std::collections::BTreeMap;
@@ -92,6 +94,36 @@ async fn exec_op(st: &ShardedActorState<SimClock>, op: &Op) -> Vec<R> {
     }
 }
 
+/// The command a connection-level client sends for `op`, and how its reply maps to per-key replies.
+fn wire_op(op: &Op) -> Vec<Vec<u8>> {
+    let b = |s: &str| s.as_bytes().to_vec();
+    match op {
+        Op::Get(i, _) => vec![b("GET"), b(KEYS[*i])],
+        Op::Set(i, v, _) => vec![b("SET"), b(KEYS[*i]), v.clone()],
+        Op::SetNx(i, v) => vec![b("SET"), b(KEYS[*i]), v.clone(), b("NX")],
+        Op::SetXx(i, v) => vec![b("SET"), b(KEYS[*i]), v.clone(), b("XX")],
+        Op::SetGet(i, v) => vec![b("SET"), b(KEYS[*i]), v.clone(), b("GET")],
+        Op::GetSet(i, v) => vec![b("GETSET"), b(KEYS[*i]), v.clone()],
+        Op::SetNxCmd(i, v) => vec![b("SETNX"), b(KEYS[*i]), v.clone()],
+        Op::IncrBy(i, d) => vec![b("INCRBY"), b(KEYS[*i]), b(&d.to_string())],
+        Op::Append(i, v) => vec![b("APPEND"), b(KEYS[*i]), v.clone()],
+        Op::Del(i) => vec![b("DEL"), b(KEYS[*i])],
+        Op::Strlen(i) => vec![b("STRLEN"), b(KEYS[*i])],
+        Op::Exists(i) => vec![b("EXISTS"), b(KEYS[*i])],
+        Op::MGet(ks) | Op::BatchGet(ks) => { let mut p = vec![b("MGET")]; for i in ks { p.push(b(KEYS[*i])); } p }
+        Op::MSet(ps) | Op::BatchSet(ps) => { let mut p = vec![b("MSET")]; for (i, v) in ps { p.push(b(KEYS[*i])); p.push(v.clone()); } p }
+        Op::Script(i, v) => vec![b("EVAL"), b(SCRIPT), b("1"), b(KEYS[*i]), v.clone()],
+    }
+}
+fn wire_replies(op: &Op, r: R) -> Vec<R> {
+    match op {
+        Op::SetNxCmd(..) => vec![match r { R::Int(1) => R::ok(), R::Int(0) => R::nil(), o => o }],
+        Op::MGet(ks) | Op::BatchGet(ks) => match r { R::Arr(Some(xs)) if xs.len() == ks.len() => xs, o => vec![o; ks.len()] },
+        Op::MSet(ps) | Op::BatchSet(ps) => vec![r; ps.len()],
+        _ => vec![r],
+    }
+}
+
 #[derive(Debug, Clone)]
 struct Rec { client: usize, op: Op, inv: u64, ret: Option<u64>, replies: Option<Vec<R>> }
 
@@ -104,7 +136,7 @@ impl Property for C02 {
     fn components_real(&self) -> Vec<&'static str> { vec!["production::ShardedActorState<T> all GET/SET entry paths and execute()", "ShardActor tasks (tokio::spawn) with their CommandExecutors, unbounded mailboxes", "ResponsePool/ResponseSlot (pooled paths)", "Lua scripting through EVAL", "production parser Command::from_resp_zero_copy"] }
     fn components_stubbed(&self) -> Vec<&'static str> { vec!["clients are harness futures calling the ShardedActorState API (connection-level concurrency is exercised in C04/C05)", "single OS thread: interleavings are at the granularity of process polls x mailbox arrivals, not of machine instructions"] }
     fn assumptions(&self) -> Vec<&'static str> { vec!["a multi-key command is required to be atomic per key only (it contributes one sub-operation per key sharing its interval)", "error replies are compared as 'an error', not by text"] }
-    fn required_probes(&self) -> Vec<&'static str> { vec!["overlapping_ops_same_key", "cancel_mid_flight", "pooled_path_used", "script_overlapped_write"] }
+    fn required_probes(&self) -> Vec<&'static str> { vec!["overlapping_ops_same_key", "cancel_mid_flight", "pooled_path_used", "script_overlapped_write", "connection_level_run"] }
     fn runs(&self, tier: Tier) -> u64 { match tier { Tier::Quick => 300000, Tier::Thorough => 6000000 } }
 
     fn run(&self, src: &mut Src, ctx: &RunCtx) -> RunReport {
@@ -115,6 +147,10 @@ impl Property for C02 {
         let nclients = 2 + src.below(4) as usize;
         let yield_bias = src.below(8);
         let cancel_rate = *src.pick(&[0u64, 0, 1, 3]);
+        // every third run the clients are connections: the production handler on a SimStream each
+        let conn = src.below(3) == 0;
+        let depth = if conn { 1 + src.below(3) as usize } else { 1 };
+        let ccfg = ConnectionConfig { max_buffer_size: 1 << 20, read_buffer_size: *src.pick(&[8192usize, 16, 64]), min_pipeline_buffer: *src.pick(&[60usize, 0, 15]), batch_threshold: *src.pick(&[2usize, 1, 3]) };
         let mut uniq = 0u64;
         let mut plans: Vec<Vec<Op>> = Vec::new();
         for c in 0..nclients {
@@ -142,6 +178,65 @@ impl Property for C02 {
         let seq = Rc::new(Cell::new(0u64));
         let (steps, order_fp, cancelled) = rt::block_on(seed, async {
             let clock = SimClock::new(1_700_000_000_000);
+            if conn {
+                clock.publish();
+                let mut scfg = ShardConfig::with_shards(nshards);
+                scfg.min_shards = nshards; scfg.max_shards = nshards; scfg.initial_shards = nshards;
+                let state: ShardedActorState = ShardedActorState::with_config(scfg);
+                let mut sched = Sched::new();
+                let streams: Vec<StreamHandle> = (0..nclients).map(|_| StreamHandle::new()).collect();
+                for (c, s) in streams.iter().enumerate() { sched.add(format!("handler{}", c), verif_hooks::connection(s.server_end(), state.clone(), ccfg.clone())); }
+                let inflight: Vec<Rc<Cell<bool>>> = (0..nclients).map(|_| Rc::new(Cell::new(false))).collect();
+                for (c, plan) in plans.iter().enumerate() {
+                    let recs = recs.clone(); let seq = seq.clone(); let fl = inflight[c].clone(); let plan = plan.clone(); let st = streams[c].clone();
+                    sched.add(format!("client{}", c), async move {
+                        let mut answered = 0usize;
+                        for group in plan.chunks(depth) {
+                            let mut idxs = Vec::new();
+                            let mut bytes = Vec::new();
+                            for op in group {
+                                let inv = { seq.set(seq.get() + 1); seq.get() };
+                                let mut r = recs.borrow_mut(); r.push(Rec { client: c, op: op.clone(), inv, ret: None, replies: None }); idxs.push(r.len() - 1);
+                                bytes.extend_from_slice(&encode_cmd(&wire_op(op)));
+                            }
+                            fl.set(true);
+                            st.deliver(&bytes);
+                            let mut got = 0usize;
+                            while got < group.len() {
+                                let o = st.out();
+                                let (reps, _, _) = decode_all(&o);
+                                while got < group.len() && reps.len() > answered + got {
+                                    let ret = { seq.set(seq.get() + 1); seq.get() };
+                                    let mut r = recs.borrow_mut();
+                                    r[idxs[got]].ret = Some(ret);
+                                    r[idxs[got]].replies = Some(wire_replies(&group[got], reps[answered + got].clone()));
+                                    got += 1;
+                                }
+                                if got >= group.len() { break; }
+                                if st.0.borrow().closed_by_server { return; }
+                                st.wait_out(o.len()).await;
+                            }
+                            answered += group.len();
+                            fl.set(false);
+                        }
+                    });
+                }
+                let mut cancelled = 0u64;
+                let mut guard = 0;
+                let clients_done = |s: &Sched| (0..nclients).all(|c| s.is_done(nclients + c));
+                while !clients_done(&sched) && guard < 20000 {
+                    guard += 1;
+                    if cancel_rate > 0 && src.chance(cancel_rate, 60) {
+                        let victims: Vec<usize> = (0..nclients).filter(|c| !sched.is_done(nclients + *c) && inflight[*c].get()).collect();
+                        if !victims.is_empty() { let v = victims[src.idx(victims.len())]; streams[v].close(); sched.cancel(nclients + v); cancelled += 1; continue; }
+                    }
+                    if let rt::Step::Idle = sched.step(src, yield_bias).await { break; }
+                }
+                for s in &streams { s.close(); }
+                for _ in 0..(4 * nclients + 8) { if (0..nclients).all(|c| sched.is_done(c)) { break; } let _ = sched.step(src, 0).await; }
+                verif_hooks::clock::clear();
+                return (sched.steps, sched.order_fp, cancelled);
+            }
             let mut perf = PerformanceConfig::default();
             perf.num_shards = nshards; perf.response_pool.capacity = cap; perf.response_pool.prewarm = prewarm;
             let mut scfg = ShardConfig::with_shards(nshards);
@@ -176,10 +271,11 @@ impl Property for C02 {
             (sched.steps, sched.order_fp, cancelled)
         });
         rep.steps = steps;
-        if cancelled > 0 { rep.probe_n("cancel_mid_flight", cancelled); rep.fault("client_cancelled_mid_operation"); }
+        if cancelled > 0 { rep.probe_n("cancel_mid_flight", cancelled); rep.fault(if conn { "connection_dropped_mid_operation" } else { "client_cancelled_mid_operation" }); }
+        if conn { rep.probe("connection_level_run"); }
         let recs = recs.borrow().clone();
         if ctx.trace {
-            rep.trace.push(format!("shards={} response_pool(capacity={}, prewarm={}) clients={}", nshards, cap, prewarm, nclients));
+            rep.trace.push(format!("shards={} response_pool(capacity={}, prewarm={}) clients={} connection_level={} pipeline_depth={} conn_cfg=(read_buffer_size={}, min_pipeline_buffer={}, batch_threshold={})", nshards, cap, prewarm, nclients, conn, depth, ccfg.read_buffer_size, ccfg.min_pipeline_buffer, ccfg.batch_threshold));
             let mut ev: Vec<(u64, String)> = Vec::new();
             for r in &recs { ev.push((r.inv, format!("seq {} client{} invokes {}", r.inv, r.client, label(&r.op)))); if let (Some(t), Some(rp)) = (r.ret, &r.replies) { ev.push((t, format!("seq {} client{} gets {} for {}", t, r.client, rp.iter().map(|x| x.show()).collect::<Vec<_>>().join(" "), label(&r.op)))); } }
             ev.sort();
@@ -214,17 +310,17 @@ impl Property for C02 {
                 let mut hist: Vec<String> = ops.iter().map(|o| format!("[{}..{}] client{} {} -> {}", o.inv, o.ret.map(|r| r.to_string()).unwrap_or_else(|| "pending".into()), o.who, o.label, o.reply.as_ref().map(|r| r.show()).unwrap_or_else(|| "?".into()))).collect();
                 hist.sort();
                 let uses_pool = recs.iter().any(|r| matches!(r.op, Op::Get(_, 2) | Op::Set(_, _, 2)));
-                let key = if cancelled > 0 && uses_pool { "C02/not-linearizable/after-cancel-with-pooled-path" } else if ops.iter().any(|o| matches!(o.op, KOp::ScriptAppend(_))) { "C02/not-linearizable/with-script" } else { "C02/not-linearizable" };
+                let key = if conn { "C02/not-linearizable/connection-level" } else if cancelled > 0 && uses_pool { "C02/not-linearizable/after-cancel-with-pooled-path" } else if ops.iter().any(|o| matches!(o.op, KOp::ScriptAppend(_))) { "C02/not-linearizable/with-script" } else { "C02/not-linearizable" };
                 rep.violate(key, format!("key {}: no linearization of {} operations ({} shards): {}", KEYS[*k], ops.len(), nshards, hist.join("; ")));
                 break;
             }
         }
         let _ = apply;
         rep.evals = evals.max(1);
-        let mut fp = fnv(0, &[nshards as u8, cap as u8, prewarm as u8]);
+        let mut fp = fnv(0, &[nshards as u8, cap as u8, prewarm as u8, conn as u8, depth as u8]);
         for p in &plans { for o in p { fp = fnv(fp, label(o).as_bytes()); } fp = fnv(fp, &[0xff]); }
         rep.fingerprint = fnv(fp, &order_fp.to_le_bytes());
-        rep.sample = Some(json!({"shards": nshards, "response_pool": {"capacity": cap, "prewarm": prewarm}, "clients": plans.iter().map(|p| p.iter().map(label).collect::<Vec<_>>()).collect::<Vec<_>>(), "cancelled_clients": cancelled, "scheduler_steps": steps }));
+        rep.sample = Some(json!({"connection_level": conn, "pipeline_depth": depth, "shards": nshards, "response_pool": {"capacity": cap, "prewarm": prewarm}, "clients": plans.iter().map(|p| p.iter().map(label).collect::<Vec<_>>()).collect::<Vec<_>>(), "cancelled_clients": cancelled, "scheduler_steps": steps }));
         rep
     }
 }
